@@ -141,10 +141,10 @@ def run(pid, tier, args):
                 raise Infra("vacuity: no %s case" % need)
         # (c) struct shapes
         out = vlib.vh(vhbin, ["shape-run"])
-        must_err = {"no-tags", "empty", "unknown-type", "nested-no-tags"}
+        must_err = {"no-tags", "empty", "unknown-type", "nested-no-tags", "anon-leftrec"}
         for line in out.splitlines():
             name, res_ = line.split("\t")
-            if res_.startswith("panic") or res_ == "hang" or (name in must_err and res_ != "err") or (name in ("recursive", "embedded", "anon-struct") and res_ != "ok"):
+            if res_.startswith("panic") or res_ == "hang" or (name in must_err and res_ != "err") or (name in ("recursive", "embedded", "anon-struct", "anon-rec-string") and res_ != "ok"):
                 v.violation("struct shape %s: Build gives %s" % (name, res_), {"property": pid, "kind": "shape", "shape": name, "real": res_})
             v.validated(1)
         v.sample({"soup": lines[len(lines) // 2], "edit_case": lines2[len(lines2) // 2], "format": "id|abstract tokens|class"})
